@@ -19,6 +19,7 @@ func registerIntrinsics(e *Engine) {
 	registerOS(e)
 	registerMisc(e)
 	registerRepoStubs(e)
+	registerHTTP(e)
 	allowExecNames["(*errors.errorString).Error"] = true
 	allowExecNames["(*fmt.wrapError).Error"] = true
 	allowExecNames["(*fmt.wrapError).Unwrap"] = true
@@ -96,6 +97,19 @@ func registerHarness(e *Engine) {
 		c.St.Assume(intCmp("<=", StrLenInt(v), BVToInt(mx)))
 		return c.Return(v)
 	}
+	// vfStringN(tag, n): string of exactly n bytes
+	e.Intr["harness.vfStringN"] = func(c *Call) []*State {
+		tag := c.constStr(0)
+		n := c.argTerm(1)
+		if !n.Const {
+			panic(unsupported("vfStringN with symbolic length"))
+		}
+		v := FreshVar(tag, SString, 0)
+		c.St.Nondets = append(c.St.Nondets, NondetRec{Src: "h", Tag: tag, Kind: "string", Term: v})
+		c.St.PC = append(c.St.PC, newTerm(&Term{Kind: SBool, Op: "=", Args: []*Term{newTerm(&Term{Kind: SInt, Op: "str.len", Args: []*Term{v}}), IntC(n.Signed())}}))
+		SetFixedLen(v.S, int(n.Signed()))
+		return c.Return(v)
+	}
 	// vfChoice(tag, n): forks n ways, returns concrete 0..n-1
 	e.Intr["harness.vfChoice"] = func(c *Call) []*State {
 		tag := c.constStr(0)
@@ -141,6 +155,16 @@ func registerHarness(e *Engine) {
 		} else {
 			r, _ = sol.Check(as, nil)
 		}
+		if r == Unknown && e.Pool2 != nil {
+			s2 := e.Pool2.Get()
+			if q == 0 {
+				r, _ = s2.Check(c.St.PC, nil)
+			} else {
+				r, _ = s2.Check(as, nil)
+			}
+			e.Pool2.Put(s2)
+			atomic.AddInt64(&e.Fallbacks, 1)
+		}
 		atomic.AddInt64(&e.AssertQ[r], 1)
 		if len(e.SampleQ) < 4 && r == Unsat {
 			e.mu.Lock()
@@ -157,6 +181,25 @@ func registerHarness(e *Engine) {
 				e.SampleQ = append(e.SampleQ, s)
 			}
 			e.mu.Unlock()
+		}
+		if r == Sat {
+			// confirm inside the ASCII alphabet (the stated string domain)
+			var ra Result
+			if q == 0 {
+				ra, _ = sol.CheckA(c.St.PC, nil, true)
+			} else {
+				ra, _ = sol.CheckA(as, nil, true)
+			}
+			if ra == Unknown && e.Pool2 != nil {
+				s2 := e.Pool2.Get()
+				if q == 0 {
+					ra, _ = s2.CheckA(c.St.PC, nil, true)
+				} else {
+					ra, _ = s2.CheckA(as, nil, true)
+				}
+				e.Pool2.Put(s2)
+			}
+			r = ra
 		}
 		switch r {
 		case Unsat:
